@@ -3,6 +3,7 @@
    and parsed to that symbol. *)
 Require Import Model.Base Model.Expr Model.Split Model.Trie Model.Overlap Model.LicTok Model.BoolParse Model.Licensing.
 Require Import Proofs.Symbol Proofs.Split Proofs.Overlap Proofs.Trie.
+Require Proofs.WithGroup Proofs.Strict.
 From Coq Require Import Lia ZifyBool.
 Open Scope Z_scope.
 
@@ -179,3 +180,199 @@ Proof.
 Qed.
 
 End Alone.
+
+(* ---- the gap-filling walk of Trie.tokenize with a single kept match ---- *)
+Section RetokSingle.
+Context {V : Type}.
+Variable O : oracle.
+Notation tok := (Trie.tok V).
+
+Lemma retok_nil_nonwords : forall ps, (forall p, In p ps -> is_word_piece O p = false) -> retok O ps ([] : list tok) = [].
+Proof.
+  induction ps as [|p ps IH]; intro H; [reflexivity|]. simpl.
+  rewrite (H p (or_introl eq_refl)). apply IH. intros q Hq. apply H. right; exact Hq.
+Qed.
+
+(* pieces after the start of the match: those up to its end are covered, later ones are blank *)
+Lemma retok_inside (c : tok) : forall ps, incr ps ->
+  (forall p, In p ps -> tstart c < pstart p) ->
+  (forall p, In p ps -> is_word_piece O p = true -> pstart p <= tend c) ->
+  retok O ps [c] = [].
+Proof.
+  induction ps as [|p ps IH]; intros Hi Hs Hw; [reflexivity|].
+  destruct Hi as [H1 [H2 H3]]. cbn [retok drop_ended].
+  destruct (tend c <? pstart p) eqn:E.
+  - (* past the end of the match: nothing but blank pieces can follow *)
+    assert (Hp : is_word_piece O p = false).
+    { destruct (is_word_piece O p) eqn:Wp; [|reflexivity]. specialize (Hw p (or_introl eq_refl) Wp). lia. }
+    rewrite Hp. apply retok_nil_nonwords. intros q Hq.
+    destruct (is_word_piece O q) eqn:Wq; [|reflexivity]. specialize (Hw q (or_intror Hq) Wq). specialize (H2 q Hq). lia.
+  - pose proof (Hs p (or_introl eq_refl)) as Hsp.
+    assert (A : (tstart c <=? pstart p) = true) by lia. assert (B : (tstart c =? pstart p) = false) by lia.
+    rewrite A, B. apply IH; [exact H3 | intros q Hq; apply Hs; right; exact Hq | intros q Hq; apply Hw; right; exact Hq].
+Qed.
+
+Definition first_word (ps : list piece) : option piece := find (is_word_piece O) ps.
+
+Lemma retok_single (c : tok) : forall ps p0, incr ps ->
+  first_word ps = Some p0 -> tstart c = pstart p0 -> tstart c <= tend c ->
+  (forall p, In p ps -> is_word_piece O p = true -> pstart p <= tend c) ->
+  retok O ps [c] = [c].
+Proof.
+  induction ps as [|p ps IH]; intros p0 Hi Hf Hs Hc Hw; [discriminate|].
+  destruct Hi as [H1 [H2 H3]]. unfold first_word in Hf. cbn [find] in Hf. cbn [retok drop_ended].
+  destruct (is_word_piece O p) eqn:Wp.
+  - inversion Hf; subst p0.
+    assert (A : (tend c <? pstart p) = false) by lia. rewrite A.
+    assert (B : (tstart c <=? pstart p) = true) by lia. assert (C : (tstart c =? pstart p) = true) by lia.
+    rewrite B, C. f_equal. apply retok_inside; [exact H3 | | intros q Hq; apply Hw; right; exact Hq].
+    intros q Hq. specialize (H2 q Hq). lia.
+  - assert (Hin : In p0 ps) by (apply find_some in Hf; destruct Hf; assumption).
+    specialize (H2 p0 Hin).
+    assert (A : (tend c <? pstart p) = false) by lia. rewrite A.
+    assert (B : (tstart c <=? pstart p) = false) by lia. rewrite B.
+    apply (IH p0); [exact H3 | exact Hf | exact Hs | exact Hc | intros q Hq; apply Hw; right; exact Hq].
+Qed.
+End RetokSingle.
+
+(* ---- from the single token to the parsed symbol ---- *)
+Section ParseAlone.
+Variable O : oracle.
+
+Lemma find_hd_filter {A} (f : A -> bool) l : find f l = hd_error (filter f l).
+Proof. induction l as [|x l IH]; [reflexivity|]. simpl. destruct (f x); [reflexivity | exact IH]. Qed.
+
+Lemma slice_head s a b1 b2 c0 r1 : slice s a b1 = c0 :: r1 -> a <= b2 -> exists r2, slice s a b2 = c0 :: r2.
+Proof.
+  unfold slice. intros H Hb. destruct (skipn (Z.to_nat a) s) as [|x rest]; [rewrite firstn_nil in H; discriminate|].
+  destruct (Z.to_nat (b1 + 1 - a)) as [|n1]; [discriminate|]. simpl in H. inversion H; subst.
+  destruct (Z.to_nat (b2 + 1 - a)) as [|n2] eqn:E; [lia|]. simpl. eexists. reflexivity.
+Qed.
+
+Lemma word_piece_head p : is_word_piece O p = true -> exists c0 r, ptext p = c0 :: r /\ is_space O c0 = false.
+Proof.
+  unfold is_word_piece, piece_cls. destruct (ptext p) as [|c0 r]; [discriminate|]. intro H.
+  exists c0, r. split; [reflexivity|]. unfold cls_of in H. destruct (is_space O c0); [discriminate | reflexivity].
+Qed.
+
+Lemma blank_no_word_piece text : blank O text = true -> filter (is_word_piece O) (pieces O text) = [].
+Proof.
+  intro B. destruct (filter (is_word_piece O) (pieces O text)) as [|p l] eqn:E; [reflexivity|]. exfalso.
+  assert (Hp : In p (filter (is_word_piece O) (pieces O text))) by (rewrite E; left; reflexivity).
+  apply filter_In in Hp as [Hin Hw]. destruct (word_piece_head p Hw) as [c0 [r [Ht Hs]]].
+  assert (Hc : In c0 text).
+  { rewrite <- (pieces_concat O text). unfold texts. apply in_concat. exists (ptext p). split; [apply in_map; exact Hin | rewrite Ht; left; reflexivity]. }
+  unfold blank in B. rewrite forallb_forall in B. rewrite (B c0 Hc) in Hs. discriminate.
+Qed.
+
+Variable T : list entry.
+Notation tr := (build_trie O T).
+
+Lemma build_trie_wf : wf_trie tr.
+Proof. unfold build_trie. apply wf_make. apply (wf_add_ops O). apply wf_empty. Qed.
+
+(* Trie.tokenize on a text that spells one stored name: one token *)
+Theorem tokenize_alone text sp v :
+  get_out (lwords O text) (outs tr) = Some (sp, v) ->
+  let wps := filter (is_word_piece O) (pieces O text) in
+  t_tokenize O tr text = [occurrence_tok text wps (last wps dpiece) v].
+Proof.
+  intros G wps. unfold t_tokenize. rewrite (filter_leaves_whole_match O tr build_trie_wf text sp v G). fold wps.
+  set (c := occurrence_tok text wps (last wps dpiece) v).
+  pose proof (whole_text_matched O tr build_trie_wf text sp v G) as Hc. fold wps in Hc. fold c in Hc.
+  destruct (match_inside O tr build_trie_wf text c Hc) as [Hw [_ [_ Hle]]]. fold wps in Hw.
+  pose proof (word_pieces_incr O text) as Iw. fold wps in Iw.
+  assert (Cs : tstart c = pstart (hd dpiece wps)) by (apply occ_start; exact Hw).
+  apply (retok_single O c (pieces O text) (hd dpiece wps)).
+  - eapply contig_incr. apply pieces_contig.
+  - unfold first_word. rewrite find_hd_filter. fold wps. destruct wps; [contradiction | reflexivity].
+  - exact Cs.
+  - exact Hle.
+  - intros p Hp Wp. assert (Hin : In p wps) by (apply filter_In; split; assumption).
+    destruct (incr_first_last wps dpiece Iw Hw p Hin) as [_ A2].
+    assert (Hpp : pstart p <= pend p).
+    { clear -Iw Hin. induction wps as [|q l IH]; [destruct Hin|]. destruct Iw as [I1 [_ I3]].
+      destruct Hin as [<-|Hin]; [exact I1 | apply IH; assumption]. }
+    cbn [tend c occurrence_tok]. lia.
+Qed.
+
+(* Licensing.parse of a text that spells one known name, whatever the case and the white space *)
+Theorem recognise_alone text sp s :
+  get_out (lwords O text) (outs tr) = Some (sp, VSym s) ->
+  parse O T false false false text = Ok (Some (Lit (Plain s))).
+Proof.
+  intro G. set (wps := filter (is_word_piece O) (pieces O text)).
+  pose proof (tokenize_alone text sp (VSym s) G) as Htok. fold wps in Htok.
+  set (c := occurrence_tok text wps (last wps dpiece) (VSym s)) in *.
+  pose proof (whole_text_matched O tr build_trie_wf text sp (VSym s) G) as Hc. fold wps in Hc. fold c in Hc.
+  destruct (match_inside O tr build_trie_wf text c Hc) as [Hw [_ [_ Hle]]]. fold wps in Hw.
+  (* the text is not blank and the token string starts with a non-space character *)
+  assert (Hb : blank O text = false).
+  { destruct (blank O text) eqn:B; [|reflexivity]. apply blank_no_word_piece in B. fold wps in B. contradiction. }
+  assert (Hne : text <> []) by (intro E; subst text; discriminate Hb).
+  assert (Hstr : exists c0 r, tstring c = c0 :: r /\ is_space O c0 = false).
+  { assert (Hp0 : In (hd dpiece wps) (pieces O text)).
+    { assert (In (hd dpiece wps) wps) by (apply hd_in; exact Hw). apply filter_In in H. destruct H; assumption. }
+    assert (Wp0 : is_word_piece O (hd dpiece wps) = true).
+    { assert (In (hd dpiece wps) wps) by (apply hd_in; exact Hw). apply filter_In in H. destruct H; assumption. }
+    destruct (word_piece_head _ Wp0) as [c0 [r [Ht Hs]]].
+    pose proof (piece_is_slice O text _ Hp0) as Sl. rewrite Ht in Sl. symmetry in Sl.
+    assert (Cs : tstart c = pstart (hd dpiece wps)) by (apply occ_start; exact Hw).
+    destruct (slice_head text (pstart (hd dpiece wps)) _ (tend c) c0 r Sl ltac:(lia)) as [r2 E2].
+    exists c0, r2. split; [|exact Hs]. cbn [tstring c occurrence_tok]. fold c. rewrite <- Cs in E2.
+    cbn [tend c occurrence_tok] in E2. destruct wps; [contradiction | exact E2]. }
+  destruct Hstr as [c0 [r [Hts Hsp]]].
+  unfold parse. rewrite Hb. unfold parse_tokens, lic_tokenize. destruct text as [|x text']; [contradiction|].
+  cbn [obind]. rewrite Htok.
+  assert (Hv : tvalue c = Some (VSym s)) by reflexivity.
+  fold c. cbn [build_unknown]. rewrite Hv. cbn [flush_unknown obind app].
+  assert (Hd : drop_blank O [c] = [c]).
+  { unfold drop_blank. cbn [filter]. rewrite Hts. unfold tok_blank, blank. rewrite Hts. cbn [forallb]. rewrite Hsp. reflexivity. }
+  rewrite Hd. cbn [group_with length Nat.ltb Nat.leb map replace_with]. rewrite Hv. cbn [andb obind].
+  reflexivity.
+Qed.
+
+(* strict parsing gives the same for a license that is not an exception *)
+Theorem recognise_alone_strict text sp s :
+  get_out (lwords O text) (outs tr) = Some (sp, VSym s) -> exc s = false ->
+  parse O T false true false text = Ok (Some (Lit (Plain s))).
+Proof.
+  intros G He. pose proof (recognise_alone text sp s G) as H.
+  unfold parse in *. destruct (blank O text); [discriminate|].
+  destruct (parse_tokens O T false false text) as [e| | | | |] eqn:P; cbn [obind] in H; try discriminate.
+  inversion H; subst e. clear H.
+  destruct text as [|x text']; [unfold parse_tokens, lic_tokenize in P; simpl in P; discriminate|].
+  destruct (Proofs.Strict.token_groups O T false (x :: text')) as [gs| | | | |] eqn:TG.
+  - assert (R : Proofs.WithGroup.roles_ok gs = true).
+    { (* the only group is the single license, which is not an exception *)
+      unfold Proofs.Strict.token_groups in TG. cbn [obind] in TG.
+      rewrite (tokenize_alone (x :: text') sp (VSym s) G) in TG. cbn [build_unknown tvalue occurrence_tok flush_unknown obind app] in TG.
+      destruct (drop_blank O _) as [|t [|t2 l]] eqn:D; inversion TG; subst gs; try reflexivity.
+      + unfold drop_blank in D. cbn [filter] in D. destruct (match tstring _ with [] => false | _ => _ end) in D; inversion D; subst t.
+        cbn [group_with length Nat.ltb Nat.leb map Proofs.WithGroup.roles_ok forallb Proofs.WithGroup.group_roles_ok tvalue occurrence_tok].
+        rewrite He. reflexivity.
+      + unfold drop_blank in D. cbn [filter] in D. destruct (match tstring _ with [] => false | _ => _ end) in D; discriminate. }
+    assert (Hne : x :: text' <> []) by discriminate.
+    destruct (Proofs.Strict.parse_strict_iff O T false (x :: text') gs (Lit (Plain s)) Hne TG) as [_ K].
+    rewrite (K (conj P R)). reflexivity.
+  - exfalso. unfold parse_tokens in P. rewrite (Proofs.Strict.lic_tokenize_groups O T false false (x :: text')) in P by discriminate. rewrite TG in P. discriminate.
+  - exfalso. unfold parse_tokens in P. rewrite (Proofs.Strict.lic_tokenize_groups O T false false (x :: text')) in P by discriminate. rewrite TG in P. discriminate.
+  - exfalso. unfold parse_tokens in P. rewrite (Proofs.Strict.lic_tokenize_groups O T false false (x :: text')) in P by discriminate. rewrite TG in P. discriminate.
+  - exfalso. unfold parse_tokens in P. rewrite (Proofs.Strict.lic_tokenize_groups O T false false (x :: text')) in P by discriminate. rewrite TG in P. discriminate.
+  - exfalso. unfold parse_tokens in P. rewrite (Proofs.Strict.lic_tokenize_groups O T false false (x :: text')) in P by discriminate. rewrite TG in P. discriminate.
+Qed.
+
+End ParseAlone.
+
+(* in terms of the names of the table: the words of the text are those of a key or alias, and [s] is
+   the symbol of the last entry that was added under these words *)
+Theorem recognise_name O T text sp s :
+  stored O (keyword_adds ++ flat_map (entry_adds O) T) (lwords O text) = Some (sp, VSym s) ->
+  parse O T false false false text = Ok (Some (Lit (Plain s))) /\ render (Lit (Plain s)) = key s.
+Proof.
+  intro H. split; [|reflexivity]. apply (recognise_alone O T text sp s).
+  unfold build_trie. cbn [t_make_automaton outs].
+  change (add_all O t_empty (keyword_adds ++ flat_map (entry_adds O) T))
+    with (add_ops O t_empty (keyword_adds ++ flat_map (entry_adds O) T)).
+  rewrite (get_out_add_ops O _ t_empty _ eq_refl). rewrite H. reflexivity.
+Qed.
